@@ -145,6 +145,12 @@ func concOp(kind int, seed int64) string {
 		cancel()
 		return fmt.Sprint(parts, a, err != nil)
 	case 5:
+		if rr.Intn(3) == 0 {
+			// the exported converter that reports invalid input: a refused text, then a good one
+			bad, e1 := cmpp.Utf8ToUcs2("abc\xff" + randText(rr, rr.Intn(5)))
+			good, e2 := cmpp.Utf8ToUcs2(randText(rr, rr.Intn(100)))
+			return fmt.Sprint(bad, e1 != nil, good, e2 != nil)
+		}
 		return cmpp.Utf8ToUcs2Pooled(randText(rr, rr.Intn(300)))
 	case 6:
 		s := randBytes(rr, rr.Intn(300))
@@ -398,11 +404,18 @@ func runConc(c Case, tr *Tracer) {
 	}
 	seqres := make([][]string, ng)
 	alone := func() {
-		for g := 0; g < ng; g++ {
-			for _, o := range prog[g] {
-				seqres[g] = append(seqres[g], digest(concOp(o.kind, o.seed)))
+		// (also under the watchdog: a call that blocks for ever when run alone does not return either)
+		var swg sync.WaitGroup
+		swg.Add(1)
+		go func() {
+			defer swg.Done()
+			for g := 0; g < ng; g++ {
+				for _, o := range prog[g] {
+					seqres[g] = append(seqres[g], digest(concOp(o.kind, o.seed)))
+				}
 			}
-		}
+		}()
+		waitOrReport(&swg, tr)
 	}
 	if !fresh {
 		alone()
